@@ -23,6 +23,11 @@ CHECKS = {
    text="Every value kind that offers serde under the crates' serde feature is built for several seeds, round-tripped through bincode, JSON and pretty JSON (serde_json with float_roundtrip), and the restored value is compared with the original: equality where defined, learned state, bit patterns of predictions/transforms, validation verdicts and refits of parameter sets, the documented tokenizer guard. Exploration over value kinds and seeds.",
    note="Trusts serde_json (float_roundtrip) and bincode as lossless carriers for finite floats; JSON is skipped for images containing null. Kernel/KernelView offer no usable serialisation (unsatisfiable derive bound) and are not monitored; Xoshiro-carrying parameter types (k-means, GMM, FTRL params) cannot be serialised with the crates' feature set and are not monitored.",
    ref="DESIGN.md §5 C19"),
+ "C20": dict(
+   technique="runtime monitor: repeated fits under varied schedules (rayon pools 1..16 threads, noise threads, fresh child processes with fresh hash seeds and RAYON_NUM_THREADS) compared by canonical bit-pattern digests of learned quantities and predictions; scheduling probe counts distinct chunk-to-worker maps",
+   text="Every estimator is refitted from identical data/parameters/seed in thread pools of different sizes under contention and in fresh processes; the canonical dump (bit patterns; label/word-keyed maps in key order) must be identical. Large datasets make the parallel k-means/GMM loops split; hash-order sensitive cases (tied leaves, tied posteriors, cluster ids, weighted impurity sums) and default-seeded builders are included. Interleavings are sampled, not enumerated.",
+   note="Trusts the canonical dump (serde_json objects sorted by key, f64 bit patterns). k-means||, p-values, unseeded FastICA and t-SNE are excluded exactly as the property says. The evidence reports how many distinct schedules the probe observed.",
+   ref="DESIGN.md §5 C20"),
 }
 
 NOT_YET = {}
